@@ -176,6 +176,7 @@ CHECKARG = Fn("checkArg", "src/Basic/AStringable.cpp", r"^bool checkArg\(const c
 IS_UID = Fn("Db::isUIDValid", DBC, r"^bool Db::isUIDValid\(int iuid\) const\s*$", csig="bool isUIDValid(int iuid)")
 IS_COL = Fn("Db::isColIdxValid", DBC, r"^bool Db::isColIdxValid\(int icol\) const\s*$", csig="bool isColIdxValid(int icol)")
 GET_COL = Fn("Db::getColIdxByUID", DBC, r"^int Db::getColIdxByUID\(int iuid\) const\s*$", csig="int getColIdxByUID(int iuid)")
+IS_DEF = Fn("Db::isUIDDefined", DBC, r"^bool Db::isUIDDefined\(int iuid\) const\s*$", csig="bool isUIDDefined(int iuid)")
 
 
 def harness(call, c, pre=""):
@@ -255,6 +256,8 @@ void vf_harness(void)
   __CPROVER_assume(%s);
   int u = W_iuid;
   int col = getColIdxByUID(u);
+  bool def = isUIDDefined(u);
+  __CPROVER_assert((def != 0) == (0 <= u && u < DB.uid_n && DB.uid[u] >= 0), "isUIDDefined: an identifier is reported as defined iff it designates a column");
   if (0 <= u && u < DB.uid_n && DB.uid[u] >= 0) {
     __CPROVER_assert(col == DB.uid[u] && 0 <= col && col < DB.ncol, "identifier designates a column of the table");
     int back = getUIDByColIdx(col);
@@ -265,9 +268,9 @@ void vf_harness(void)
   VF_REACH();
 }
 """ % wf(c)
-    return Unit("C07.lemma.uid_col_roundtrip", [CHECKARG, IS_UID, IS_COL, GET_COL, f], pre_inputs=pre_inputs(c), prelude=BIND,
+    return Unit("C07.lemma.uid_col_roundtrip", [CHECKARG, IS_UID, IS_COL, GET_COL, IS_DEF, f], pre_inputs=pre_inputs(c), prelude=BIND,
                 inputs=[("DbS", "DB"), ("PtrGeos", "DBP", "NLOC"), ("int", "W_iuid")], harness=h, replace=["getUIDByColIdx"],
-                claim="lemma over the contracts of getColIdxByUID (real body) and getUIDByColIdx (contract): identifier and column index designate the same column",
+                claim="lemma over the contracts of getColIdxByUID (real body) and getUIDByColIdx (contract): identifier and column index designate the same column; isUIDDefined (real body) says 'defined' exactly for the identifiers that designate a column",
                 assumptions=A(c))
 
 
@@ -464,7 +467,7 @@ def cancel_loop(c, uid):
 
 ELOC_RW = [(r"locatorType\.getValue\(\)", "(locatorType)", None)]
 CLEARLOC = Fn("Db::clearLocators", DBC, r"^void Db::clearLocators\(const ELoc& locatorType\)\s*$", csig="void clearLocators(int locatorType)",
-              rewrites=ELOC_RW + [(r"PtrGeos& p = ", "PtrGeos* p = &", 1), (r"\bp\.clear\(\)", "PtrGeos_clear(p)", 1)])
+              rewrites=ELOC_RW + [(r"ELoc::UNKNOWN", "ELOC_UNKNOWN", "opt"), (r"PtrGeos& p = ", "PtrGeos* p = &", 1), (r"\bp\.clear\(\)", "PtrGeos_clear(p)", 1)])
 GETLOCNUM = Fn("Db::getLocatorNumber", DBC, r"^int Db::getLocatorNumber\(const ELoc& locatorType\) const\s*$", csig="int getLocatorNumber(int locatorType)",
                rewrites=ELOC_RW + [(r"const PtrGeos& p = ", "const PtrGeos* p = &", 1), (r"\bp\.getLocatorNumber\(\)", "PtrGeos_getLocatorNumber(p)", 1)])
 NEXTLOC = Fn("Db::_getNextLocator", DBC, r"^int Db::_getNextLocator\(const ELoc& locatorType\) const\s*$", csig="int _getNextLocator(int locatorType)")
@@ -812,6 +815,25 @@ void vf_harness(void)
                 canaries=[{"fn": "Db::deleteSample", "rx": r"int iad1 = jech \+ nnew \* icol;", "rp": "int iad1 = jech + nech * icol;", "expect": r"assertion|bounds"}])
 
 
+def unit_clear_locators(c):
+    """removing every role of one type; ELoc::UNKNOWN (-1) designates no role list"""
+    N, R = c["NLOC"], c["RMAX"]
+    others = AND("(locatorType == %d || (DBP[%d]._r.n == __CPROVER_old(DBP[%d]._r.n) && %s))" % (t, t, t, AND("DBP[%d]._r.a[%d] == __CPROVER_old(DBP[%d]._r.a[%d])" % (t, k, t, k) for k in range(R))) for t in range(N))
+    contract = "\n".join(["__CPROVER_requires(%s)" % wf(c), "__CPROVER_requires(-1 <= locatorType && locatorType < NLOC)",
+                          "__CPROVER_assigns(__CPROVER_object_whole(DBP))",
+                          "__CPROVER_ensures(%s)" % AND("(locatorType != %d || DBP[%d]._r.n == 0)" % (t, t) for t in range(N)),
+                          "__CPROVER_ensures(%s)" % others, "__CPROVER_ensures(%s)" % wf(c)])
+    f = Fn("Db::clearLocators", DBC, r"^void Db::clearLocators\(const ELoc& locatorType\)\s*$", csig="void clearLocators(int locatorType)", contract=contract,
+           rewrites=DB_LOWER + [(r"locatorType == ELOC_UNKNOWN", "locatorType == ELOC_UNKNOWN", "opt")])
+    return Unit("C07.clearLocators", [f], pre_inputs=pre_inputs(c), prelude=BIND + ivec_model(c) + "static void PtrGeos_clear(PtrGeos* p) { ivec_clear(&p->_r); }\n",
+                inputs=[("DbS", "DB"), ("PtrGeos", "DBP", "NLOC"), ("int", "W_loc")], harness=harness("clearLocators(W_loc)", c),
+                enforce="clearLocators", checks=["--bounds-check", "--pointer-check"], backends=("minisat", "cadical"), timeout=300,
+                claim=("Db::clearLocators for a role type or for ELoc::UNKNOWN (-1, as Db::setLocators passes it when roles are removed): the list of that type is emptied, "
+                       "every other list is untouched, no access outside the table of role lists, invariant kept"),
+                assumptions=A(c),
+                canaries=[{"fn": "Db::clearLocators", "rx": r"p\.clear\(\);", "rp": ";", "expect": r"clearLocators\.postcondition"}])
+
+
 def unit_unique_names():
     """column names are unique: the two de-duplication routines every column creation / renaming goes through (String.cpp)"""
     pre = """
@@ -860,7 +882,7 @@ void vf_harness()
 def units(tier):
     c = caps(tier)
     return [unit_find(c), unit_getuid(c), unit_designation_roundtrip(c), unit_delete_column(c), unit_delete_column_invalid(c),
-            unit_setlocator(c, 'ok'), unit_setlocator(c, 'gap'), unit_setlocator(c, 'dead'), unit_setlocator_invalid(c), unit_setlocators_colidx(c), unit_unique_names(), unit_add_columns(c), unit_delete_by_colidx(c), unit_sample_edits(c)]
+            unit_setlocator(c, 'ok'), unit_setlocator(c, 'gap'), unit_setlocator(c, 'dead'), unit_setlocator_invalid(c), unit_setlocators_colidx(c), unit_unique_names(), unit_add_columns(c), unit_delete_by_colidx(c), unit_sample_edits(c), unit_clear_locators(c)]
 
 
 META = {
